@@ -16,13 +16,19 @@ from pyvc.models.atoms_heap import AtomsHeap
 from pyvc.models.ase_model import RngModel
 from pyvc.models.calc_model import arrays_equal
 from pyvc.objects import Builtin, Ext, Obj
-from pyvc.values import Sym, Tensor, to_z3
+from pyvc.values import mk, Sym, Tensor, to_z3
 
 DM = "quansino.moves.displacement.DisplacementMove"
 GC = "quansino.mc.gcmc.GrandCanonical"
 
 
-def build(S, tier):
+def array_link(I, U, L1, w):
+    """facts connecting the source of a candidate set with the current label array at the witness row (when the set was
+    built from an older array the two are related by the array terms themselves; nothing to add)"""
+    return []
+
+
+def build(S, tier, parts=None):
     meta = {"assumptions": [
         "numpy / ASE contracts of pyvc/models/arrays.py and atoms_heap.py (hstack, delete = mask gather, extend, __delitem__)",
         "alignment view: a label array is aligned with the atoms iff it has the atoms' length and was transformed by the same append/delete steps; the per-particle clauses are stated on generic rows",
@@ -74,7 +80,27 @@ def build(S, tier):
                     hy = lambda: list(I.path.pc)
                     exp_len = n.t + (a.t if shape in ("added", "both") else 0) - (r.t if shape in ("removed", "both") else 0)
                     S.prove(f"{label}#ensures.length_follows_the_atom_count@{i}", zint(L1.n) == exp_len, hyps=hy())
-                    S.prove(f"{label}#ensures.unique_labels_refreshed@{i}", isinstance(mv.attrs["unique_labels"], LabelSet) and mv.attrs["unique_labels"].source.uid == L1.uid, kind="ensures")
+                    U1 = mv.attrs["unique_labels"]
+                    S.prove(f"{label}#ensures.unique_labels_refreshed@{i}", isinstance(U1, LabelSet), kind="ensures", why=f"unique_labels is {U1!r}")
+                    if isinstance(U1, LabelSet):
+                        # the candidate list is exactly the set of non-negative labels of the CURRENT label array
+                        x = I.path.fresh("candidate_label", "int")
+                        member, w = U1.contains(I, x)
+                        q = generic_index(I, L1.n, "q")
+                        present_at = lambda row: z3.And(zint(row) >= 0, zint(row) < zint(L1.n), zint(L1.at(I, row)) == x.t)
+                        witnesses = [w] + ([mk(n.t)] if shape in ("added", "both") else [])          # the first appended row carries the new label
+                        S.prove(f"{label}#inv.every_candidate_label_is_non_negative_and_carried_by_an_atom@{i}",
+                                z3.Implies(member, z3.And(x.t >= 0, z3.Or([present_at(r_) for r_ in witnesses]))), hyps=hy() + (list(I.path.pc)[len(hy()):]) + array_link(I, U1, L1, w))
+                        # row q's label must be a candidate when it is non-negative: witness q itself
+                        # witness: row q of the array the candidate set was built from (the current one, or an older one whose
+                        # row q still carries the same label)
+                        try:
+                            same_row = z3.And(zint(q) < zint(U1.source.n), zint(U1.source.at(I, q)) == zint(L1.at(I, q)), U1.admitted(I, q))
+                        except Exception:  # noqa: BLE001
+                            same_row = z3.BoolVal(False)
+                        cand_q = z3.And(same_row, *[zint(L1.at(I, q)) != zint(e) for e in U1.excluded])
+                        cand_q = z3.Or(cand_q, *[zint(L1.at(I, q)) == zint(e) for e in U1.extra])
+                        S.prove(f"{label}#inv.every_non_negative_label_is_a_candidate@{i}", z3.Implies(zint(L1.at(I, q)) >= 0, cand_q), hyps=list(I.path.pc))
                     if shape == "added":
                         j = generic_index(I, L1.n, "j")
                         new = L1.at(I, j)
@@ -90,6 +116,8 @@ def build(S, tier):
                             # a fresh label: different from every existing non-negative label (distinct particles stay distinct)
                             q = generic_index(I, n, "q")
                             ub = z3.And(v["U0"].upper_bound_instance(I, q), v["U0"].empty_means(I, q)) if isinstance(v["U0"], LabelSet) else z3.BoolVal(True)
+                            from pyvc.models.arrays import array_max_facts
+                            ub = z3.And(ub, *array_max_facts(I, q))
                             S.prove(f"{label}#ensures.automatic_label_is_fresh_and_non_negative@{i}",
                                     z3.Implies(j.t >= n.t, z3.And(zint(new) >= 0, z3.Implies(zint(L0.at(I, q)) >= 0, zint(new) != zint(L0.at(I, q))))), hyps=hy() + [ub])
                     if shape in ("removed", "both"):
@@ -99,6 +127,9 @@ def build(S, tier):
                             src = L1.term[1]
                             S.prove(f"{label}#ensures.additions_are_appended_before_the_deletion@{i}", src.term[0] == "concat" and arrays_equal(I, src.term[1], L0), kind="ensures")
                 S.guarded(label, post)
+
+    if parts == ("labels",):
+        return meta            # only the label-array contract of DisplacementMove.on_atoms_changed (used by C11)
 
     # ------------------------------------------------------------------ (d) GrandCanonical.save_state / ExchangeContext.save_state
     class LabelProbe(Ext):
